@@ -12,6 +12,9 @@ import LexVerif.Proof.DragonboxShorterB
 import LexVerif.Proof.DragonboxShorterC
 import LexVerif.Proof.DragonboxShorterD
 import LexVerif.Proof.GrisuCached
+import LexVerif.Proof.DragonboxEdges32
+import LexVerif.Proof.DragonboxEdges64A
+import LexVerif.Proof.DragonboxEdges64B
 import LexVerif.Proof.GrisuSpec
 /-!
 # C02 — float→decimal output round-trips exactly and is shortest (property theorems)
@@ -204,6 +207,38 @@ theorem dragonbox_correct_shorter_partial (t : FTy) (e : Nat) (h0 : 0 < e) (he :
     by_cases c15 : e < 1920
     · exact List.all_eq_true.mp shorter64_1792_1920 _ (mem_expChunk (by omega) c15 h0)
     · exact List.all_eq_true.mp shorter64_1920_2048 _ (mem_expChunk (by omega) (by omega) h0)
+
+theorem mem_edges {t : FTy} {lo hi step e : Nat} (h1 : lo ≤ e) (h2 : e < hi) (h3 : e % step = 0) :
+    e * 2 ^ t.ms + 1 ∈ edges t lo hi step ∧ e * 2 ^ t.ms + (2 ^ t.ms - 1) ∈ edges t lo hi step := by
+  unfold edges
+  constructor <;>
+  · apply List.mem_flatMap.mpr
+    exact ⟨e, List.mem_filter.mpr ⟨List.mem_range.mpr h2, by simp [h1, h3]⟩, by simp⟩
+
+/-- PROVED PART (normal branch, finite): the binade edges — mantissa field `1` and all-ones — for EVERY exponent field of
+binary32 (subnormals included: the smallest and the largest subnormal) and every 4th exponent field of binary64, each
+kernel-evaluated against the oracle. Together with the shorter-interval theorem this covers the three patterns nearest to
+every power of two of binary32. -/
+theorem dragonbox_correct_edges_partial :
+    (∀ e, e < 255 → dragonboxOk .f32 (e * 2 ^ 23 + 1) = true ∧ dragonboxOk .f32 (e * 2 ^ 23 + (2 ^ 23 - 1)) = true)
+    ∧ (∀ e, e < 2047 → e % 4 = 0 →
+        dragonboxOk .f64 (e * 2 ^ 52 + 1) = true ∧ dragonboxOk .f64 (e * 2 ^ 52 + (2 ^ 52 - 1)) = true) := by
+  constructor
+  · intro e he
+    obtain ⟨m1, m2⟩ := mem_edges (t := .f32) (lo := 0) (hi := 255) (step := 1) (Nat.zero_le e) he (Nat.mod_one e)
+    exact ⟨List.all_eq_true.mp edges32_all _ m1, List.all_eq_true.mp edges32_all _ m2⟩
+  · intro e he h4
+    by_cases c1 : e < 512
+    · obtain ⟨m1, m2⟩ := mem_edges (t := .f64) (lo := 0) (hi := 512) (step := 4) (Nat.zero_le e) c1 h4
+      exact ⟨List.all_eq_true.mp edges64_0_512 _ m1, List.all_eq_true.mp edges64_0_512 _ m2⟩
+    by_cases c2 : e < 1024
+    · obtain ⟨m1, m2⟩ := mem_edges (t := .f64) (lo := 512) (hi := 1024) (step := 4) (by omega) c2 h4
+      exact ⟨List.all_eq_true.mp edges64_512_1024 _ m1, List.all_eq_true.mp edges64_512_1024 _ m2⟩
+    by_cases c3 : e < 1536
+    · obtain ⟨m1, m2⟩ := mem_edges (t := .f64) (lo := 1024) (hi := 1536) (step := 4) (by omega) c3 h4
+      exact ⟨List.all_eq_true.mp edges64_1024_1536 _ m1, List.all_eq_true.mp edges64_1024_1536 _ m2⟩
+    · obtain ⟨m1, m2⟩ := mem_edges (t := .f64) (lo := 1536) (hi := 2047) (step := 4) (by omega) he h4
+      exact ⟨List.all_eq_true.mp edges64_1536_2047 _ m1, List.all_eq_true.mp edges64_1536_2047 _ m2⟩
 
 /-- what `dragonboxOk` gives: the returned decimal, trailing zeros stripped, re-parses (exact `roundNE`) to the same bits -/
 theorem dragonboxOk_roundtrips {t : FTy} {bits : Nat} (h0 : 0 < bits) (hfin : bits < (fmtOf t).infBits)
